@@ -262,29 +262,56 @@ def dispatch_names(fn):
     return names
 
 
+def _bind(call, callee_params):
+    """callee parameter name -> the Name handed over (None when it is not a bare name), positional and keyword arguments alike"""
+    if any(k.arg is None for k in call.keywords) or any(isinstance(a, ast.Starred) for a in call.args) or len(call.args) > len(callee_params):
+        raise Refuse('call with * / ** arguments: %s' % ast.unparse(call)[:80])
+    m = {}
+    for p_, a in zip(callee_params, call.args):
+        m[p_] = a.id if isinstance(a, ast.Name) else None
+    for k in call.keywords:
+        if k.arg in m or k.arg not in callee_params:
+            raise Refuse('call binds %s twice / to nothing: %s' % (k.arg, ast.unparse(call)[:80]))
+        m[k.arg] = k.value.id if isinstance(k.value, ast.Name) else None
+    return m
+
+
 def engine_validates(tree, name, with_seqs2):
+    """True: the first statement hands the engine's own parameters to the validator, role by role (by position or by keyword).
+    False: it calls the validator with something else in some role.  Anything else (validation moved elsewhere, wrapped, decorated):
+    refused - the snapshot is used and the invalid-argument product of the harness decides."""
     fn = next((n for n in tree.body if isinstance(n, ast.FunctionDef) and n.name == name), None)
-    if fn is None:
-        raise Refuse('engine %s not found' % name)
+    val = next((n for n in tree.body if isinstance(n, ast.FunctionDef) and n.name == '_check_common_input'), None)
+    if fn is None or val is None:
+        raise Refuse('engine %s / the validator not found' % name)
     b = body_of(fn)
     want = ['seqs', 'max_edits', 'max_returns', 'n_cpu', 'custom_distance', 'max_custom_distance', 'output_type'] + (['seqs2'] if with_seqs2 else [])
     params = [a.arg for a in fn.args.args]
+    vparams = [a.arg for a in val.args.args]
     if not b or not (isinstance(b[0], ast.Expr) and isinstance(b[0].value, ast.Call) and isinstance(b[0].value.func, ast.Name)
-                     and b[0].value.func.id == '_check_common_input' and not b[0].value.keywords):
-        return False
-    args = b[0].value.args
-    return all(p in params for p in want) and [a.id if isinstance(a, ast.Name) else None for a in args] == want
+                     and b[0].value.func.id == '_check_common_input'):
+        raise Refuse('engine %s does not start with a plain call of the validator' % name)
+    if any(p_ not in params for p_ in want) or len(vparams) < len(want):
+        raise Refuse('engine %s: parameters renamed' % name)
+    m = _bind(b[0].value, vparams)
+    return [m.get(vparams[i]) for i in range(len(want))] == want and all(m.get(v) is None for v in vparams[len(want):] if v in m) \
+        and set(m) <= set(vparams[:len(want)] if not with_seqs2 else vparams)
 
 
 def delegates(tree):
     fn = next((n for n in tree.body if isinstance(n, ast.FunctionDef) and n.name == 'nearest_neighbor'), None)
-    if fn is None:
-        return False
+    sy = next((n for n in tree.body if isinstance(n, ast.FunctionDef) and n.name == 'symdel'), None)
+    if fn is None or sy is None:
+        raise Refuse('nearest_neighbor / symdel not found')
     b = body_of(fn)
     params = [a.arg for a in fn.args.args]
-    return (len(b) == 1 and isinstance(b[0], ast.Return) and isinstance(b[0].value, ast.Call) and isinstance(b[0].value.func, ast.Name)
-            and b[0].value.func.id == 'symdel' and not b[0].value.keywords
-            and [a.id if isinstance(a, ast.Name) else None for a in b[0].value.args] == params and not fn.args.kwarg and not fn.args.vararg)
+    sparams = [a.arg for a in sy.args.args]
+    if not (len(b) == 1 and isinstance(b[0], ast.Return) and isinstance(b[0].value, ast.Call) and isinstance(b[0].value.func, ast.Name)
+            and b[0].value.func.id == 'symdel') or fn.args.kwarg or fn.args.vararg:
+        raise Refuse('nearest_neighbor is not a single `return symdel(..)`')
+    m = _bind(b[0].value, sparams)
+    # every parameter of nearest_neighbor reaches the symdel parameter of the same name (the documented delegation)
+    return all(m.get(p_) == p_ for p_ in params) and all(p_ in sparams for p_ in params)
 
 
 def coq_str(s):
